@@ -421,7 +421,10 @@ def _process_models(*, schemas: Schemas, config: Config) -> Schemas:
         _verif_trace.emit("process_round", progress=still_making_progress, remaining=[m.name for m in next_round])
 
     final_model_errors.extend(latest_model_errors)
-    _verif_trace.emit("remove_begin", failed=[m.name for m, _ in final_model_errors])
+    _verif_trace.emit(
+        "remove_begin",
+        failed=[{"name": m.name, "roots": sorted(str(r) for r in m.roots)} for m, _ in final_model_errors],
+    )
     errors = _process_model_errors(final_model_errors, schemas=schemas)
     _verif_trace.emit(
         "schemas_done",
